@@ -270,6 +270,18 @@ def run(ctx):
             rng.shuffle(net)
         ctx.count("amplifying_chain_networks")
         check_network(ctx, net, tag="amplifying chains (multi-digit yields)")
+    # long leaky amplifying chains A0 -> c A1 -> ... -> A(n-1) -> (nothing): S is square and of full rank, so both kernels
+    # are trivial, while its singular values spread over almost eight orders of magnitude (c^(n-1) < 1e8): a rank
+    # tolerance that is too generous invents kernel vectors here and nowhere in small networks
+    for n_, c_ in ((10, 4), (12, 4), (13, 4), (14, 4), (16, 3), (13, 3)):
+        if not ctx.mine(n_ * 7 + c_):
+            continue
+        names = [f"A{j}" for j in range(n_)]
+        net = [W.rxn({names[j]: 1}, {names[j + 1]: c_}) for j in range(n_ - 1)] + [W.rxn({names[-1]: 1}, {})]
+        if rng.random() < 0.5:
+            rng.shuffle(net)
+        ctx.count("long_leaky_chain_networks")
+        check_network(ctx, net, tag="long leaky amplifying chains (full-rank S, wide singular spectrum)")
     n = 250 if ctx.quick else 5000
     for i in range(n):
         if ctx.out_of_time():
